@@ -128,9 +128,9 @@ def run(tier: str, seed: int) -> int:
     for i in range(n_core + n_core // 2):
         if len(failures) >= 3:
             break
-        # function-free programs, and (last third) programs with leaf functions compiled out of line
+        # function-free programs, and (last third) programs with functions compiled out of line: leaf functions / functions that call functions
         with_funcs = i >= n_core
-        g, prog, src, pool = whole.gen_program(r, "incoref" if with_funcs else "incore")
+        g, prog, src, pool = whole.gen_program(r, ("incoref" if i % 2 else "incoren") if with_funcs else "incore")
         opts = whole.default_opts(append_version=False, inline_functions=not with_funcs)
         res, cap = whole.compile_captured(src, opts)
         if "error" in res or not cap.lines:
